@@ -182,6 +182,9 @@ def depends_on_sub(b, op, depth=8):
     return False
 
 
+CONVERT_STEP = [None]      # id of the filter_map closure whose every output goes through the re-encoding map
+
+
 def reencoded_in_tokenize(ctx):
     """LspProject::tokenize builds its Ok list as  filter_map(<closure building LspTokenType and converting>)
     .map(<closure that rebuilds each SemanticToken with subtraction-dependent deltas>).collect()  -- returns (ok, detail)"""
@@ -222,7 +225,9 @@ def reencoded_in_tokenize(ctx):
             for c in co:
                 cp = op_place(c.args[0])
                 if cp is not None and b.root(cp)[0] == m.dest[0]:
+                    CONVERT_STEP[0] = norm(fc.id)
                     return True, "filter_map(convert) -> map(re-encode with differences) -> collect"
+    CONVERT_STEP[0] = None
     return False, "no filter_map(convert).map(re-encode).collect() chain with subtraction-dependent deltas in LspProject::tokenize"
 
 
@@ -253,6 +258,9 @@ def rule_delta(ctx, rep):
                     elif "LspTokenType" in b.id and reenc and not outside:
                         r.justified(inst, "absolute position, but this conversion's input (LspTokenType) is only built inside LspProject::tokenize, "
                                           "which re-encodes every converted token: " + detail, loc_str(b.f, s[3]))
+                    elif reenc and CONVERT_STEP[0] and norm(b.id).startswith(CONVERT_STEP[0]):
+                        r.justified(inst, "absolute position built inside the conversion step of LspProject::tokenize, every output of which goes through "
+                                          "the re-encoding step: " + detail, loc_str(b.f, s[3]))
                     else:
                         r.finding(inst, loc_str(b.f, s[3]), "%s is an absolute position (no subtraction of the previous token's position feeds it): the response decodes to wrong ranges after the first token" % fld)
         for i, j, s in b.all_stmts():
@@ -335,4 +343,6 @@ def run(ctx, rep):
     rule_linecol(ctx, rep, rid="R-C15-linecol")
     from rules.c05 import rule_tile
     rule_tile(ctx, rep, rid="R-C15-tile")
+    from rules import c15_units
+    c15_units.run(ctx, rep)
     # R-C05-noop (column after a comment) is decided under C05
